@@ -274,6 +274,8 @@ class Program:
         if isinstance(node, ast.FunctionDef):
             q = f"{mod.name}:{node.name}"
             self.functions[q] = FuncInfo(q, mod, node)
+            self.functions[q].span = (node.lineno, node.end_lineno or
+                                      node.lineno)
         elif isinstance(node, ast.ClassDef):
             bases = []
             for b in node.bases:
@@ -286,6 +288,7 @@ class Program:
                 if isinstance(st, ast.FunctionDef):
                     q = f"{mod.name}:{node.name}.{st.name}"
                     fi = FuncInfo(q, mod, st, ci)
+                    fi.span = (st.lineno, st.end_lineno or st.lineno)
                     # property setters etc. would overwrite: keep the first
                     ci.methods.setdefault(st.name, fi)
                     self.functions.setdefault(q, fi)
@@ -435,6 +438,77 @@ class Program:
                 return target, {}
             out[k.arg] = k.value
         return target, out
+
+    # -- what the rules cannot see through ----------------------------------
+    def function_at(self, relpath: str, line: int) -> "FuncInfo | None":
+        """Innermost function whose ORIGINAL source span contains the line."""
+        best = None
+        for fi in self.functions.values():
+            if fi.module.relpath != relpath:
+                continue
+            lo, hi = getattr(fi, "span", (0, -1))
+            if lo <= line <= hi and (best is None or lo >= best.span[0]):
+                best = fi
+        return best
+
+    def opaque_context(self, fi: "FuncInfo") -> list[str]:
+        """Reasons why shape rules may misjudge fi: it still calls package
+        helpers that are outside the rule inventory and could not be inlined
+        (generators, closures, *args, non-tail returns), calls through a
+        loop variable, or reads a module / class level table that is not in
+        the inventory and is not a literal."""
+        new_funcs = set(self.norm_report.get("new_functions", []))
+        new_names = set(self.norm_report.get("new_names", []))
+        if not new_funcs and not new_names:
+            return []
+        short_new = {q.split(":")[1].split(".")[-1]: q for q in new_funcs}
+        out = []
+        loopvars = set()
+        aliases: dict[str, str] = {}
+        for n in ast.walk(fi.node):
+            if isinstance(n, (ast.For, ast.comprehension)):
+                for x in ast.walk(n.target):
+                    if isinstance(x, ast.Name):
+                        loopvars.add(x.id)
+            elif isinstance(n, ast.Assign):
+                # callables handed around in tuples: (table, setter) = ...
+                for t in n.targets:
+                    if isinstance(t, (ast.Tuple, ast.List)):
+                        for x in ast.walk(t):
+                            if isinstance(x, ast.Name):
+                                loopvars.add(x.id)
+                # local alias of a helper: renamed = self._renamed
+                v = n.value
+                vname = v.id if isinstance(v, ast.Name) else (
+                    v.attr if isinstance(v, ast.Attribute) else None)
+                if vname in short_new:
+                    for t in n.targets:
+                        if isinstance(t, ast.Name):
+                            aliases[t.id] = short_new[vname]
+        for n in ast.walk(fi.node):
+            if isinstance(n, ast.Call):
+                f = n.func
+                name = f.id if isinstance(f, ast.Name) else (
+                    f.attr if isinstance(f, ast.Attribute) else None)
+                if name in short_new:
+                    out.append(f"calls {short_new[name]} (not inlinable)")
+                elif isinstance(f, ast.Name) and f.id in aliases:
+                    out.append(f"calls {aliases[f.id]} (not inlinable) "
+                               f"through the local `{f.id}`")
+                elif isinstance(f, ast.Name) and (
+                        f.id in loopvars or "__inl_" in f.id):
+                    out.append(f"calls through the local `{f.id}` (a "
+                               "callable handed around as a value)")
+            elif isinstance(n, ast.Name) and isinstance(n.ctx, ast.Load):
+                for q in new_names:
+                    if q.split(":=")[1].split(".")[-1] == n.id:
+                        out.append(f"reads the table {q}")
+            elif isinstance(n, ast.Attribute) and isinstance(n.ctx, ast.Load):
+                for q in new_names:
+                    if "." in q.split(":=")[1] and \
+                            q.split(":=")[1].split(".")[-1] == n.attr:
+                        out.append(f"reads the table {q}")
+        return sorted(set(out))
 
     def inlined_away(self, qual: str) -> bool:
         """qual is a function outside the rule inventory that the normal form
